@@ -3,7 +3,7 @@
    table lemma is instantiated on every check with the call-site table regenerated from the source
    (coq/Gen/RandSitesTable.v, theorem all_sites_checked, re-proved by vm_compute). *)
 From Coq Require Import List NArith ZArith Arith Bool.
-From GmVerif Require Import Sys.Rand Sys.Tables.
+From GmVerif Require Import Sys.Rand Sys.Gateway Sys.Tables.
 Import ListNotations.
 
 (* single gateway with length guard: nothing is drawn for len = 0 or len > 256 *)
@@ -90,6 +90,48 @@ Theorem C18_marking_before_refill_reuses_a_nonce :
   used (sign_many 2 fails false 5 (mkP (fun _ => 0) 0 0 [])) = [4; 5; 0; 1].
 Proof. exact marking_before_refill_reuses_a_nonce. Qed.
 Print Assumptions C18_marking_before_refill_reuses_a_nonce.
+
+(* ---- the gateway itself (wave 5).  Bytes are identified by their position in the device's output. *)
+(* default build (rand_unix.c): success => exactly len bytes, all from the one successful getentropy() call, 1 <= len <= 256 *)
+Theorem C18_gateway_unix_sound : forall nul len att out calls,
+  rand_bytes_unix nul len att = (Ok out, calls) ->
+  out = seq 0 len /\ 1 <= len <= 256 /\ calls = 1 /\ hd false att = true.
+Proof. exact rand_bytes_unix_sound. Qed.
+Print Assumptions C18_gateway_unix_sound.
+
+Theorem C18_gateway_unix_failure_is_err : forall nul len att r calls,
+  rand_bytes_unix nul len att = (r, calls) -> r = Err \/ exists out, r = Ok out /\ hd false att = true.
+Proof. exact rand_bytes_unix_failure_is_err. Qed.
+Print Assumptions C18_gateway_unix_failure_is_err.
+
+(* HAVE_GETENTROPY off (rand.c, /dev/urandom): success => one read delivered all len bytes, in order *)
+Theorem C18_gateway_urandom_sound : forall nul len op script out calls,
+  rand_bytes_urandom nul len op script = (Ok out, calls) -> out = seq 0 len /\ 1 <= len <= 4096 /\ calls = 1.
+Proof. exact rand_bytes_urandom_sound. Qed.
+Print Assumptions C18_gateway_urandom_sound.
+
+(* any read loop that follows some policy (continue short reads at the right offset or not, retry EINTR up to a bound),
+   any fuel, any device behaviour: success => the buffer is exactly the first `want` device bytes in order *)
+Theorem C18_read_loop_all_from_source : forall pol fuel want script out calls,
+  read_loop pol fuel want [] 0 (max_eintr pol) script 0 = (Ok out, calls) -> out = seq 0 want.
+Proof. exact read_loop_all_from_source. Qed.
+Print Assumptions C18_read_loop_all_from_source.
+
+(* a loop that never advances the buffer (the seeded rand.c) is not such a loop: it reports success with a stale tail *)
+Theorem C18_never_advancing_loop_refuted :
+  never_advancing_loop 5 4 4 0 [99; 99; 99; 99] [Deliver 1; Deliver 3] = Ok [1; 2; 3; 99] /\
+  fst (read_loop (mkPolicy true 0) 5 4 [] 0 0 [Deliver 1; Deliver 3] 0) = Ok [0; 1; 2; 3].
+Proof. exact never_advancing_loop_refuted. Qed.
+Print Assumptions C18_never_advancing_loop_refuted.
+
+(* gateway -> stream -> consumer: a gateway failure at any draw a checked consumer makes => the consumer returns Err *)
+Theorem C18_gateway_failure_fails_consumer : forall A (c : comp A) e attempts bytes len_of,
+  checked c ->
+  (exists i, drawn e <= i < drawn (snd (run (stream_of attempts bytes len_of) c e)) /\
+             fst (rand_bytes_unix false (len_of i) (attempts i)) = Err) ->
+  fst (run (stream_of attempts bytes len_of) c e) = Err.
+Proof. exact gateway_failure_fails_consumer. Qed.
+Print Assumptions C18_gateway_failure_fails_consumer.
 
 (* table side: on ANY table for which the decidable row predicate holds, the status of every call of an
    entropy-dependent function is used by its caller, and every failure value of the callee (read off its return
